@@ -52,7 +52,7 @@ func racDir() string {
 // supportHarness: bounded harnesses run in support of a property whose own deciding obligations are
 // per-function contracts: the optimizer and the compiler sit between those contracts and what a script
 // observes, and are themselves only covered by the bounded checks.
-var supportHarness = map[string][]string{"C01": {"C02", "C03", "C14", "C12"}, "C04": {"C04"}, "C05": {"C02", "C03"}, "C06": {"C06"}, "C07": {"C04", "C06"}, "C09": {"C08"}, "C11": {"C08"}, "C15": {"C03"}, "C16": {"C03"},
+var supportHarness = map[string][]string{"C01": {"C02", "C03", "C14", "C12"}, "C04": {"C04"}, "C05": {"C02", "C03"}, "C06": {"C06"}, "C07": {"C04", "C06"}, "C09": {"C08"}, "C11": {"C08"}, "C15": {"C03"}, "C16": {"C16", "C03"},
 	"C08": {"C08", "C13"}, "C13": {"C13", "C08"}, "C12": {"C12", "C13", "C03"}, "C14": {"C14"}, "C17": {"C17", "C14"}, "C19": {"C04"}, "C20": {"C20"}}
 
 func runBounded(id, tier string, seed int, findings []*finding, res *propResult) (violLines, knownLines, notes []string) {
@@ -75,10 +75,10 @@ func runHarness(id, hid, tier string, seed int, findings []*finding, res *propRe
 			res.ev.Coverage["bounded_support"] = sup
 		}()
 	}
-	n := map[string]int{"C02": 600, "C03": 3000, "C18": 2500, "C08": 6000, "C13": 1500, "C14": 1, "C12": 4000, "C17": 1, "C04": 1, "C20": 150, "C06": 1}[hid]
+	n := map[string]int{"C02": 600, "C03": 3000, "C18": 2500, "C08": 6000, "C13": 1500, "C14": 1, "C12": 4000, "C17": 1, "C04": 1, "C20": 150, "C06": 1, "C16": 1}[hid]
 	big := "0"
 	if tier == "thorough" {
-		n = map[string]int{"C02": 12000, "C03": 120000, "C18": 60000, "C08": 400000, "C13": 40000, "C14": 4, "C12": 400000, "C17": 40, "C04": 4, "C20": 6000, "C06": 1}[hid]
+		n = map[string]int{"C02": 12000, "C03": 120000, "C18": 60000, "C08": 400000, "C13": 40000, "C14": 4, "C12": 400000, "C17": 40, "C04": 4, "C20": 6000, "C06": 1, "C16": 200}[hid]
 		if !own {
 			n /= 4
 		}
@@ -136,12 +136,14 @@ func runHarness(id, hid, tier string, seed int, findings []*finding, res *propRe
 			"C17": "time fields over a grid of instants x 12 zones (whole-hour, half-hour, 45-minute and historical sub-minute offsets); sort/reverse of random string arrays x 5 call forms; join(split(s, d), d) over 17 subjects x 7 delimiters; min/max over 17 x 17 numeric pairs, between over random triples",
 			"C04": "28 field names x 12 host objects (structs by value and by pointer with every field kind, embedded structs sharing field names, two struct types that print alike, maps incl. keys spelled with and without $, nil), each evaluator run over all objects in two orders, optimised/unoptimised, then with a variable of the same name",
 			"C06": "27 scripts about parameters, locals, loop variables ($-spelled ones too), global assignments, calls before the definition, recursion, wrong argument counts, unknown functions, built-ins before user-defined functions, returns from inside nested loops, failures and panics inside functions - each as a sequence of runs on one evaluator, with the variables left behind, optimised and not",
+			"C16": "31 scripts about array order, inclusive ranges, indexing inside and outside (strings by character), hash keys of different types, absent keys, dot access, `in`, len and iteration of every container kind, plus 300 x N randomised indices, ranges and membership tests",
 			"C20": "the driver binary built from the tree: 30 fixed and N generated scripts x 3 JSON documents x optimised/-no-optimizer (x -timeout) through `run`, malformed and missing JSON files, a never-ending script under -timeout, and generated / token-soup / random-byte scripts through lex, parse, bytecode and run",
 			"C08": "a quarter each: generated valid scripts, the same with tokens deleted / duplicated / swapped / replaced, random sequences of the language's tokens, random bytes; each through Prepare (both modes), Execute, Run and Dump",
 		}[hid], map[string]string{
 			"C02": "Oracle: a reference interpreter of the fragment written from the language definition (rac_gen_test.go).",
 			"C03": "Oracle: equality of result, host-call sequence, variables left and stack residue.",
 			"C06": "Oracle: the result and the variables left behind that the property states (cases that run into the listed finding of C06 are left out).",
+			"C16": "Oracle: the values the property states; for the randomised part a direct computation on the generated data.",
 			"C20": "Oracle: the report line the driver prints equals the one built from Execute in this process on the same decoded document (type, printed value, truth, or the error); every sub-command ends with exit status 0 and without a runtime failure.",
 			"C08": "Oracle: no panic reaches the caller of the API.",
 			"C12": "Oracle: a reference evaluation of the TREE (integer arithmetic stays integer, int mixed with float in float, comparisons and logic as the language defines); cases where an error sits in an operand that short-circuiting might skip are left out.",
